@@ -1591,6 +1591,11 @@ class Qube(object):
             raise TypeError('derivatives are disallowed in class '
                             + type(self).__name__)
 
+        if not isinstance(key, str):    # the key also names the attribute d_d<key>
+            raise TypeError('invalid key for a derivative in %s object: %s; '
+                            'must be a string'
+                            % (type(self).__name__, repr(key)))
+
         if not isinstance(deriv, Qube):
             raise ValueError('invalid class for derivative "%s" in %s object: '
                              '%s'
